@@ -704,23 +704,34 @@ def rule_cursor(ck, facts):
                     else:
                         ck.bad(R, "writer|%s" % root, "%s writes the state cursor directly (only the push/pop primitives and the explicit reset may)" % f.short, f.where(s))
     ck.floor(R, "state_cursor_writes", n, 4)
-    # resize dominates execute in the VM entry
+    # every entry that runs a function on the *global* state storage (Machine::execute with no closure) sizes that
+    # storage from the entered function's skeleton first: the state accessors are unchecked pointer arithmetic
+    from ..cfg import DefIndex as _DI
+    entries = 0
     for f in lang.fns:
-        if not f.short.endswith("runtime::vm::Machine::execute_idx"):
+        if f.kind == "promoted" or "::test" in f.path or "::runtime::vm" not in f.path:
             continue
-        dom = dominators(f)
-        ex = [b for b, t in f.calls() if (callee(t) or "").endswith("Machine::execute")]
-        rs = [b for b, t in f.calls() if (callee(t) or "").endswith("::resize")]
-        ok = bool(ex) and all(any(r in dom[e] for r in rs) for e in ex)
-        # the size comes from total_size of the skeleton
-        sized = any((callee(t) or "").endswith("::total_size") for _, t in f.calls())
-        if ok and sized:
-            ck.ok(R, "resize-before-execute|execute_idx", {"fn": f.short})
-        else:
-            ck.bad(R, "resize-before-execute|execute_idx", "%s does not size the state storage from the skeleton's total_size before running the function" % f.short, f.where())
-        break
-    else:
-        ck.bad(R, "anchor|execute_idx", "VM entry Machine::execute_idx not found")
+        if f.root.endswith("runtime::vm::Machine::execute"):
+            continue  # the interpreter's own recursion (calls between user functions share the entry's storage)
+        di = None
+        for b, t in f.calls():
+            if not (callee(t) or "").endswith("vm::Machine::execute") or len(t[5]) < 3:
+                continue
+            di = di or _DI(f)
+            r = di.resolve(t[5][2])
+            is_none = r[0] == "rv" and r[1][5][0] == "agg" and r[1][5][1][0] == "adt" and r[1][5][1][1].endswith("::Option") and r[1][5][1][3] == "None"
+            if not is_none:
+                continue
+            entries += 1
+            dom = dominators(f)
+            rs = [b2 for b2, t2 in f.calls() if (callee(t2) or "").endswith("::resize") and ("StateStorage" in (callee(t2) or "") or "Vec" in (callee(t2) or ""))]
+            sized = any((callee(t2) or "").endswith("::total_size") for g in facts.family(roles.LANG, f.root) for _, t2 in g.calls())
+            key = "resize-before-execute|%s" % f.short.split("::")[-1]
+            if any(r2 in dom[b] for r2 in rs) and sized:
+                ck.ok(R, key, {"fn": f.short})
+            else:
+                ck.bad(R, key, "%s runs a function on the global state storage without sizing that storage from the function's skeleton (total_size) first: a stateful call in that function writes through an unchecked pointer into an empty / too short buffer" % f.short, f.where(t))
+    ck.floor(R, "vm_entries_on_global_state", entries, 2)
 
     # the per-closure cursor reset belongs to the closure that is leaving: where a host function resets a cursor found
     # through the top of the closure-state stack and pops that stack, the top is read before the pop
